@@ -47,11 +47,12 @@ def host_doc(cmd):
         d[k] = ['call_raised("%s") != "IOError" or call_errno("%s") == 110' % (cmd, cmd)]
     # "timeout as TimeoutError, ... other RF errors as TransmissionError": the chip's status 01h is the timeout,
     # every other status of the exchange is a transmission error (NFC-DEP and the tag layers retry on exactly
-    # these two); the initiator side of the PN53x family reports neither a protocol error nor a broken link
+    # these two); a chip status is never dressed up as a protocol error
     d['nfc.clf:TimeoutError'].append('call_raised("%s") != "Chipset.Error" or call_errno("%s") == 1' % (cmd, cmd))
     d['nfc.clf:TransmissionError'].append('call_raised("%s") != "Chipset.Error" or call_errno("%s") != 1' % (cmd, cmd))
     d['nfc.clf:ProtocolError'].append('False')
-    d['nfc.clf:BrokenLinkError'].append('False')
+    # (field loss may be reported as BrokenLinkError - the property says so - but only for a chip status, not a timeout)
+    d['nfc.clf:BrokenLinkError'].append('call_raised("%s") == "Chipset.Error" and call_errno("%s") != 1' % (cmd, cmd))
     return d
 
 
